@@ -7,6 +7,8 @@ A case is  {'script': [[outcome, mode], ...], 'ka': bool, 'batches': [[stim, ...
   stim:  ['start'] | ['resolve'] | ['cancel', k] | ['lose', c] |
          ['goaway', c] or ['goaway', c, error_code, 'zero'|'seen'|'max', debug] (last_stream_id 0 / highest seen / 2**31-1) | ['kaclose'] |
          ['close'] | ['pause', c] | ['resume', c] | ['answer', k] |
+         ['startstream'] (client-streaming call whose sender blocks on the flow-control window) |
+         ['trailers', k] (trailers-only response, END_STREAM, to call k) |
          ['hold', c]  (from now on c's transport withholds connection_lost after close(); only `lose` delivers it)
 All stimuli of one batch are applied back to back WITHOUT running the loop; then the loop runs until
 no callback is ready (virtual time does not advance, except inside `kaclose`, which advances it by
@@ -15,7 +17,7 @@ silent peer).  The observation vector is taken after every batch.
 """
 import asyncio
 
-from grpclib.client import UnaryUnaryMethod
+from grpclib.client import UnaryUnaryMethod, StreamStreamMethod
 from grpclib.config import Configuration
 from h2.events import DataReceived
 
@@ -73,7 +75,7 @@ class CmdClientEnd:
 
     def _make(self, protocol_factory):
         proto = protocol_factory()
-        peer = P.Peer(client_side=False)
+        peer = P.Peer(client_side=False, auto_ack=getattr(self, 'window_updates', True))
         tr = HoldTransport(proto, self.loop, on_write=peer.receive)
         peer.attach(tr)
         peer.start()
@@ -186,6 +188,11 @@ def payload(k):
     return b'call-%d' % k
 
 
+def big_payload(k):
+    # larger than any flow-control credit the silent peer ever grants: the sender blocks in send_message()
+    return b'call-%d;' % k + b'x' * 150000
+
+
 class Runner:
     """drives one case; see the module docstring"""
 
@@ -207,6 +214,8 @@ class Runner:
         self.ce.default_mode = 't' if case.get('timed') else 'd'
         self.entered = set()         # callers whose task reached Channel.__connect__
         self.method = UnaryUnaryMethod(self.ce.channel, '/v.S/M', bytes, bytes)
+        self.smethod = StreamStreamMethod(self.ce.channel, '/v.S/SS', bytes, bytes)
+        self.ce.window_updates = not case.get('nomodel_stream')
         self.tasks = []
         self.req = {}                # caller -> (conn index, stream id) once the peer saw the request
         self.answered = set()
@@ -261,11 +270,37 @@ class Runner:
         k = len(self.tasks)
         self.tasks.append(self.loop.create_task(self.method(payload(k))))
 
+    def start_stream(self):
+        """a client-streaming call whose sender blocks on the exhausted flow-control window"""
+        k = len(self.tasks)
+
+        async def call():
+            async with self.smethod.open() as s:
+                await s.send_message(big_payload(k))
+                await s.end()
+                await s.recv_message()
+            return b'reply-%d' % k
+        self.tasks.append(self.loop.create_task(call()))
+
     def apply(self, st, bi):
         ce = self.ce
         op = st[0]
         if op == 'start':
             self.start()
+        elif op == 'startstream':
+            self.start_stream()
+        elif op == 'trailers':
+            # the peer ends call k's stream with a trailers-only response (END_STREAM, no RST_STREAM): the
+            # response is complete while the client may still be sending
+            self.scan_requests()
+            k = st[1]
+            if k in self.req and k not in self.answered and not self.tasks[k].done():
+                c, sid = self.req[k]
+                proto, tr, peer = ce.conns[c]
+                if not tr.closing and not tr.lost and c not in self.goaway_at:
+                    self.answered.add(k)
+                    peer.headers(sid, P.RESP_HEADERS + [('grpc-status', '8'), ('grpc-message', 'early reply')],
+                                 end_stream=True)
         elif op == 'resolve':
             ce.resolve()
         elif op == 'advance':
@@ -336,7 +371,9 @@ class Runner:
                 if isinstance(ev, DataReceived):
                     data = ev.data[5:]
                     if data.startswith(b'call-'):
-                        self.req[int(data[5:])] = (c, ev.stream_id)
+                        num = data[5:].split(b';')[0]
+                        if num.isdigit():
+                            self.req.setdefault(int(num), (c, ev.stream_id))
 
     def held_protocol(self):
         """index of the connection the channel holds (found by role: the attribute whose value is one of the
